@@ -36,4 +36,5 @@ def run(ctx, rep):
     rep.run(RM.rule_overload_data_from_overload, ctx, rep, "M9")
     rep.run(RM.rule_callee_spelling, ctx, rep, "M10")
     rep.run(RM.rule_copy_exactly_for_values, ctx, rep, "M11")
+    rep.run(RM.rule_pair_element_by_position, ctx, rep, "M12")
     rep.run(RF.rule_locals_defined, ctx, rep, "U1", packages=("gtwrap/matlab_wrapper",), min_functions=3)
